@@ -13,8 +13,10 @@ RULE = ("for each freshly generated key pair (real files, no mocks): the .pub fi
         "checked against the private key's numbers (words == 64, modulus == n, exponent == e, n*n0inv == -1 mod 2^32, rr == 2^4096 mod n); every signer class signs "
         "20-byte tokens (random, zeros, 0xFF) and each signature is verified by pure-integer RSA: pow(sig, e, n) == EMSA-PKCS1-v1_5(SHA-1 DigestInfo || token), and by "
         "cryptography's Prehashed(SHA1) verifier; the three signers must return identical bytes. "
+        "Key files get names with dots and spaces (the public key belongs at <path>.pub); the comment must be ' <login>@<host>' with each lookup falling back to 'unknown' on its own (lookups are made to fail / return nothing); threads: one signer object per class shared by 3 threads, pauses injected at source lines of the signing code. "
         "non-trivial = every case (one key); distinct = distinct moduli")
-ASSUMPTIONS = ["adbd verifies with RSA_verify(NID_sha1, token, 20, sig, ...), i.e. PKCS#1 v1.5 over the token taken as a SHA-1 digest (AOSP adb/daemon/auth.cpp)",
+ASSUMPTIONS = ["Sign() of a signer object shared by several threads is expected to work (several devices may be connected with one signer at the same time); the unchanged signers do",
+               "adbd verifies with RSA_verify(NID_sha1, token, 20, sig, ...), i.e. PKCS#1 v1.5 over the token taken as a SHA-1 digest (AOSP adb/daemon/auth.cpp)",
                "the cryptography package is trusted for loading the PEM private key and as a second verifier"]
 SHARDS = {"quick": 4, "thorough": 16}
 TIME_BUDGET = {"quick": 300, "thorough": 1800}
